@@ -1,6 +1,7 @@
 """C02 — settings decoding (iter_settings / BeaconConfig) and the settings views: generators, adapters, oracle."""
 from __future__ import annotations
 
+import io
 import itertools
 import logging
 import signal
@@ -9,10 +10,14 @@ import struct
 from dissect.cobaltstrike import beacon as B
 
 from . import common as C
+from . import pyuval_t02
 
 ID = "C02"
 DRIVER = "drv_c02"
 GEN = ["beacon"]
+GEN += ["py_utils", "py_beaconcfg"]
+EXTRA_PROP_FILES = ["Props/C02Gen.lean"]
+G_STREAMS = ("parse", "trunc", "ua", "junk", "views", "real", "hist")
 STREAMS = {
     "parse": {"relevant": True, "desc": "BeaconConfig(serialize(settings)+tail): settings_tuple, setting_enums, max_setting_enum"},
     "trunc": {"relevant": True, "desc": "every prefix of a serialized sample"},
@@ -22,12 +27,30 @@ STREAMS = {
     "real": {"relevant": True, "desc": "the same 16 mappings with the real pretty functions, pretty results masked"},
     "hist": {"relevant": True, "desc": "sequences of accesses (4 cached properties, 12 settings_map combinations, setting_enums, "
                                        "max_setting_enum, settings_tuple) on ONE BeaconConfig object; every step also compared with a fresh object"},
+    "g-parse": {"relevant": False, "desc": "iter_settings / BeaconConfig.__init__ / setting_enums / max_setting_enum TRANSLATED from their source "
+                                           "(Gen/PyBeaconCfg.lean) vs the real code, on every case of parse"},
+    "g-trunc": {"relevant": False, "desc": "translated definitions vs the real code on every case of trunc"},
+    "g-ua": {"relevant": False, "desc": "translated definitions vs the real code on every case of ua"},
+    "g-junk": {"relevant": False, "desc": "translated definitions vs the real code on every case of junk"},
+    "g-views": {"relevant": False, "desc": "translated settings_map (12 combinations) and the uncached bodies of the 4 view properties "
+                                           "(calling a pretty function = the tagging stub) vs the real code, on every case of views"},
+    "g-real": {"relevant": False, "desc": "the same with the real pretty functions, pretty results masked, on every case of real"},
+    "g-hist": {"relevant": False, "desc": "every access of every history answered by the (uncached) translated definitions vs the answers of ONE real object"},
+    "g-arg": {"relevant": False, "desc": "translated iter_settings on arguments of any kind (None, int, str, list, BytesIO at any position, …) and "
+                                         "translated settings_map with index_type / pretty / parse of any kind"},
+    "pyu": {"relevant": False, "desc": "the operations of the translator's run-time library added for C02 (Model/PyU_T02.lean: BytesIO.seek, "
+                                       "struct Setting read from a BytesIO, attribute assignment, str(), str.replace, tuple(), MappingProxyType, max) "
+                                       "vs CPython / dissect.cstruct on random operands of all kinds"},
 }
 TRUSTED = [
     "tools/harness/c02.py generators, adapters, reference TLV decoder; line protocol parsing/rendering in lean/CsVerif/Driver/C02.lean",
     "tools/gen/beacon.py (enum value/name tables, SETTING_TO_PRETTYFUNC key set, struct Setting layout by introspection)",
     "dissect.cstruct struct/enum semantics (EOFError on short read, enum eq/hash by class+value, name resolution of aliases) and "
     "io.BytesIO, dict insertion order, int.from_bytes are modelled (Model/C02.lean, Model/PyFile.lean), not verified",
+    "tools/py2leanu.py + lean/CsVerif/Model/PyU.lean, PyU_T15.lean (yield), PyU_T02.lean (untyped source-to-Lean translation of iter_settings, "
+    "BeaconConfig.__init__ / settings_map / setting_enums / max_setting_enum and the uncached bodies of the four view properties; "
+    "Props/C02Gen.lean proves the translated definitions equal to the hand-written model; the g-* streams run them against the real code "
+    "on every case of the hand-model streams, the pyu stream runs the PyU_T02 operations against CPython / dissect.cstruct)",
 ]
 ASSUMPTIONS = [
     "config blocks are `bytes` (BeaconConfig wraps them in io.BytesIO); iter_settings on other file objects is not modelled",
@@ -387,6 +410,45 @@ def _real_pretty_ok(blk: bytes) -> bool:
 
 
 def gen(tier, rng, shard, nshards):
+    """every case of the hand-model streams is also run through the definitions translated from the source"""
+    for stream, line in gen0(tier, rng, shard, nshards):
+        yield stream, line
+        if stream in G_STREAMS:
+            yield "g-" + stream, "g" + line
+    thorough = tier == "thorough"
+    for _ in range((20000 if thorough else 2000) // nshards):
+        yield "g-arg", gen_arg_line(rng)
+    for _ in range((100000 if thorough else 10000) // nshards):
+        line = pyuval_t02.case(rng)
+        if line is not None:
+            yield "pyu", line
+
+
+def gen_arg_line(rng):
+    """arguments only the translation can express: `iter_settings(<anything>)`, `settings_map(<anything> x 3)`"""
+    P = pyuval_t02
+    if rng.random() < 0.5:
+        r = rng.random()
+        if r < 0.45:
+            blk = gen_block(rng, small=True) if rng.random() < 0.7 else gen_ua(rng)
+            blk = blk[:400]
+            f = io.BytesIO(blk)
+            f.seek(rng.choice([0, 0, 0, 1, 2, 6, 8, len(blk), len(blk) + 2]))
+            a = f
+        elif r < 0.6:
+            a = gen_block(rng, small=True)[:300]
+        else:
+            a = P.value(rng)
+            if isinstance(a, B.Setting):
+                a = None
+        return "gis " + P.pshow(a)
+    blk = gen_hist_block(rng) if rng.random() < 0.7 else gen_block(rng, small=True)[:300]
+    its = ["name", "const", "enum", "NAME", "", "names", b"name", None, 0, 1, ("name",), ["const"], B.BeaconSetting(1)]
+    flags = [True, False, True, False, 0, 1, 2, None, "", "x", b"", b"\x00", [], [0], (), {}, {1: 2}, B.SettingsType(0), B.SettingsType(1)]
+    return f"gsm {C.hx(blk)} {C.ints(gen_raising(rng))} {P.pshow(rng.choice(its))} {P.pshow(rng.choice(flags))} {P.pshow(rng.choice(flags))}"
+
+
+def gen0(tier, rng, shard, nshards):
     thorough = tier == "thorough"
     k = 0
 
@@ -686,7 +748,21 @@ def impl(stream, line):
 
 
 def _impl(stream, line):
+    if stream == "pyu":
+        return pyuval_t02.run(line)
     w = line.split()
+    if w[0] == "gis":
+        return "ok " + pyuval_t02.pshow(list(B.iter_settings(pyuval_t02.pparse(w[1]))))
+    if w[0] == "gsm":
+        with _Stubbed(C.unints(w[2])):
+            m = B.BeaconConfig(C.unhx(w[1])).settings_map(*[pyuval_t02.pparse(t) for t in w[3:6]])
+            return _show_map_obj(m)
+    if w[0] == "ghist":
+        with _Stubbed(C.unints(w[2])):
+            out, _cache = _history(C.unhx(w[1]), C.unints(w[3]))
+        return " || ".join(out)
+    if stream.startswith("g-"):
+        return _impl(stream[2:], line[1:])      # the same real code
     blk = C.unhx(w[1])
     if w[0] == "parse":
         return _render_parsed_impl(B.BeaconConfig(blk))
@@ -742,6 +818,14 @@ def _impl(stream, line):
 
 
 def nontrivial(stream, line, out):
+    if stream == "pyu":
+        return not out.startswith("exc ")
+    if stream == "g-arg":
+        return not out.startswith("exc ") and out not in ("ok L[]", "[]")
+    if stream == "g-hist":
+        return "=" in out
+    if stream.startswith("g-"):
+        return nontrivial(stream[2:], line[1:], out)
     if out.startswith("exc "):
         return False
     if line.startswith("parse"):
@@ -754,6 +838,8 @@ def nontrivial(stream, line, out):
 def oracle(stream, line, out):
     """The property stated independently: the implementation's output must equal what the reference TLV decoder
     (+ a plain Python dict for the views) gives."""
+    if stream.startswith("g-") or stream == "pyu":
+        return None
     w = line.split()
     blk = C.unhx(w[1])
     items = ref_decode(blk)
@@ -797,6 +883,12 @@ def oracle(stream, line, out):
 
 
 def shrink(stream, line):
+    if stream in ("pyu", "g-arg"):
+        return
+    if stream.startswith("g-"):
+        for cand in shrink(stream[2:], line[1:]):
+            yield "g" + cand
+        return
     for cand in C.shrink_tokens(line):
         if stream == "real":
             # stay inside the stream's domain: blocks on which a real pretty function raises are C03's subject
